@@ -279,31 +279,30 @@ func unpackBundleFileList(ctx context.Context, bundle *Bundle,
 	bundle.l.Info("preallocating bundle entries",
 		zap.Uint64("max entries", maxBundleEntries),
 	)
-	bundle.BundleEntries = make([]model.BundleEntry, maxBundleEntries)
+	bundle.BundleEntries = make([]model.BundleEntry, 0, maxBundleEntries)
+
+	// file lists arrive in any order and, after files have been deleted from the repo, any of them may hold
+	// fewer entries than the nominal number: collect them by index, then assemble them in index order.
+	fileLists := make(map[uint64][]model.BundleEntry, bundle.BundleDescriptor.BundleEntriesFileCount)
 
 	var gotDoneSignal bool
 	for !gotDoneSignal {
 		select {
 		case res := <-bundleEntriesC:
-			startIdx := int(res.idx) * int(bundleEntriesPerFile)
-			copy(bundle.BundleEntries[startIdx:], res.bundleEntries.BundleEntries)
-			if res.idx+1 == bundle.BundleDescriptor.BundleEntriesFileCount {
-				missingEntries := int(bundleEntriesPerFile) - len(res.bundleEntries.BundleEntries)
-				if missingEntries < 0 {
-					return fmt.Errorf("%v is greater than expected number of bundle entries %v",
-						len(res.bundleEntries.BundleEntries), bundleEntriesPerFile)
-				}
-				bundle.BundleEntries = bundle.BundleEntries[:len(bundle.BundleEntries)-missingEntries]
-			} else if uint(len(res.bundleEntries.BundleEntries)) != bundleEntriesPerFile {
-				return fmt.Errorf("%v is not expected number of bundle entries %v",
+			if uint(len(res.bundleEntries.BundleEntries)) > bundleEntriesPerFile {
+				return fmt.Errorf("%v is greater than expected number of bundle entries %v",
 					len(res.bundleEntries.BundleEntries), bundleEntriesPerFile)
 			}
+			fileLists[res.idx] = res.bundleEntries.BundleEntries
 		case err := <-errorC:
 			bundle.l.Error("unpack bundle filelist failed", zap.Error(err))
 			return err
 		case <-doneOkC:
 			gotDoneSignal = true
 		}
+	}
+	for i := uint64(0); i < bundle.BundleDescriptor.BundleEntriesFileCount; i++ {
+		bundle.BundleEntries = append(bundle.BundleEntries, fileLists[i]...)
 	}
 	return nil
 }
